@@ -192,86 +192,59 @@ def _one_map(ctx, lat):
 
 
 def _images(ctx):
+    """periodic_images, read in nest form (pk/loopform.py): whatever mix of iproduct!/flat_map/for/helpers the source uses,
+    it must be  for i in -shells..=shells { for j in -shells..=shells { if keep(zero,i,j) { yield translate(t,i,j) } } }."""
+    from ..nest import Nest
     rep, f = ctx.rep, ctx.facts
     b = f.one(self_adt=CELL, name='periodic_images')
     if not rep.check(b is not None, 'R3', 'anchor:periodic_images', CELL, 'found', 'not found', 'anchor-lost'):
         return
     rep.saw(b)
-    t = Tracer(b)
-    src, chain = adaptor_chain(t, {'k': 'copy', 'l': 0, 'p': []})
-    names = [c[0] for c in chain]
-    allowed = {'map', 'filter', 'cartesian_product', 'into_iter'}
-    bad = [x for x in names if x not in allowed]
-    rep.check(not bad and names.count('cartesian_product') == 1 and names.count('map') == 1 and names.count('filter') <= 1,
-              'R3', 'image-chain-shape', where(b), 'chain = %s' % list(reversed(names)),
-              'periodic_images uses adaptor(s) %s that can drop, repeat or reorder lattice translations (chain %s)' % (bad, names))
-    shells_arg = [i for i in b.args() if b.local_name(i) == 'shells'] or [3]
-    cp = [c for c in chain if c[0] == 'cartesian_product']
-    if cp:
-        for k, a in enumerate(cp[0][1]['args'][:2]):
-            s2, ch2 = adaptor_chain(t, a)
-            okr = False
-            why = 'factor %d of the product is not a range -shells..=shells' % k
-            if s2['o'] == 'call' and call_matches(s2['term'], 'RangeInclusive::<Idx>::new'):
-                lo, hi = [t.origin(x) for x in s2['term']['args'][:2]]
-                lo_ok = lo['o'] == 'rvalue' and lo['rv']['r'] == 'unop' and lo['rv']['op'] == 'Neg' and \
-                    t.origin(lo['rv']['a']).get('l') in shells_arg
-                hi_ok = hi['o'] == 'arg' and hi['l'] in shells_arg
-                okr = lo_ok and hi_ok
-                if not okr:
-                    why = 'range bounds of factor %d are not (-shells, shells): lo=%s hi=%s' % (k, lo['o'], hi['o'])
-            elif s2['o'] == 'rvalue' and 'Range' in str(s2['rv'].get('adt')):
-                why = 'factor %d is a half-open range: the +shells shell is missing' % k
-            rep.check(okr, 'R3', 'index-range:%d' % k, where(b), '-shells..=shells', why)
-    # filter truth table
-    flt = [c for c in chain if c[0] == 'filter']
-    if flt:
-        co = t.origin(flt[0][1]['args'][1])
-        cb = f.body(co['rv']['closure']) if co['o'] == 'rvalue' and co['rv'].get('agg') == 'closure' else None
-        if rep.check(cb is not None, 'R3', 'filter-closure', where(b), 'found', 'filter predicate is not a closure', 'undecidable-shape'):
-            rep.saw(cb)
-            rows, err = truth_table(f, cb)
-            if err:
-                rep.fail('R3', 'filter-truth-table', where(cb), err, 'undecidable-shape')
-            else:
-                want = {(z, x0, y0): (z or not (x0 and y0)) for z in (0, 1) for x0 in (0, 1) for y0 in (0, 1)}
-                diff = [k for k in want if rows.get(k) != want[k]]
-                rep.check(not diff, 'R3', 'filter-truth-table', where(cb),
-                          'keep(zero, x=0, y=0) == zero OR NOT(x=0 AND y=0) on all 8 rows',
-                          'the image filter differs from "drop only the (0,0) translate, and only when zero is false" '
-                          'on rows (zero, x==0, y==0) = %s' % diff)
-                rep.extra['filter_truth_table'] = {str(k): v for k, v in sorted(rows.items())}
-    else:
-        rep.fail('R3', 'filter-truth-table', where(b), 'no filter: the untranslated image cannot be excluded when asked')
-    # map closure
-    mp = [c for c in chain if c[0] == 'map']
-    if mp:
-        co = t.origin(mp[0][1]['args'][1])
-        cb = f.body(co['rv']['closure']) if co['o'] == 'rvalue' and co['rv'].get('agg') == 'closure' else None
-        ok = False
-        why = 'map closure not found'
-        if cb is not None:
-            rep.saw(cb)
-            tc = Tracer(cb)
-            calls = [c for c in cb.calls()]
-            if len(calls) == 1 and call_matches(calls[0][1], 'to_cartesian_translate') and calls[0][1]['dest']['l'] == 0:
-                a = [tc.origin(x) for x in calls[0][1]['args']]
-                fx, fy = field_path(a[2].get('p', [])), field_path(a[3].get('p', []))
-                tr_cap = field_path(a[1].get('p', []))
-                ok = a[2].get('l') == 2 and a[3].get('l') == 2 and fx == ['0'] and fy == ['1'] and a[1].get('l') == 1
-                why = 'map closure calls to_cartesian_translate with item fields %s, %s (expected .0, .1) / transform from %s' % (fx, fy, tr_cap)
-            else:
-                why = 'map closure does not simply return to_cartesian_translate(transform, x, y)'
-        rep.check(ok, 'R3', 'each-index-mapped-by-translate', where(b), 'map(|(x,y)| self.to_cartesian_translate(transform, x, y))', why)
-
-
-def truth_table(f, cb):
-    """Evaluate a boolean closure over the atoms: captured bool `zero`, item.0 == 0, item.1 == 0."""
-    sx = SymEx(f)
-    outs = sx.run(cb, [SYM('env'), SYM('item')])
-    if not outs or sx.aborted:
-        return None, 'closure is not loop-free'
-    rows = {}
+    n = Nest(f, b)
+    for p in n.b.inlined:
+        rep.note('periodic_images: spliced %s' % p)
+    ys = n.calls(lambda t: t['func'].get('fn') == 'pk::yield')
+    loops = n.loops_around(ys[0][0]) if len(ys) == 1 else []
+    shape_ok = len(ys) == 1 and len(loops) == 2 and not any(d['adaptors'] for d in loops)
+    rep.check(shape_ok, 'R3', 'image-chain-shape', where(b),
+              'yields once per (i, j) of two nested index loops (fused: %s)' % (n.b.fused,),
+              'periodic_images is not a two-level nest over the index ranges: %d yield site(s), %d enclosing loop(s), '
+              'remaining adaptors %s — elements can be dropped, repeated or reordered'
+              % (len(ys), len(loops), [d['adaptors'] for d in loops]), 'violation' if ys else 'undecidable-shape')
+    if not shape_ok:
+        return
+    ybb = ys[0][0]
+    outer, inner = loops
+    t = n.tr
+    shells_arg = [i for i in n.b.args() if n.b.local_name(i) == 'shells'] or [3]
+    for k, d in enumerate(loops):
+        s2 = t.origin({'k': 'copy', 'l': d['iter_local'], 'p': []}) if d['iter_local'] is not None else {'o': '?'}
+        for _ in range(4):
+            if s2['o'] == 'call' and call_matches(s2['term'], 'IntoIterator::into_iter', 'IntoIterator>::into_iter') and s2['term']['args']:
+                s2 = t.origin(s2['term']['args'][0])
+        okr = False
+        why = 'index loop %d does not range over -shells..=shells' % k
+        if s2['o'] == 'call' and call_matches(s2['term'], 'RangeInclusive::<Idx>::new'):
+            lo, hi = [t.origin(x) for x in s2['term']['args'][:2]]
+            lo_ok = lo['o'] == 'rvalue' and lo['rv']['r'] == 'unop' and lo['rv']['op'] == 'Neg' and \
+                t.origin(lo['rv']['a']).get('l') in shells_arg and t.origin(lo['rv']['a'])['o'] == 'arg'
+            hi_ok = hi['o'] == 'arg' and hi['l'] in shells_arg
+            okr = lo_ok and hi_ok
+            if not okr:
+                why = 'range bounds of index loop %d are not (-shells, shells): lo=%s hi=%s' % (k, lo['o'], hi['o'])
+        elif s2['o'] == 'rvalue' and 'Range' in str(s2['rv'].get('adt')):
+            why = 'index loop %d is a half-open range: the +shells shell is missing' % k
+        rep.check(okr, 'R3', 'index-range:%d' % k, where(b), '-shells..=shells', why)
+    rep.check(n.recreated_per_iteration(inner, outer) and n.always_entered(outer) and n.always_entered(inner, within=outer),
+              'R3', 'index-loops-are-a-full-product', where(b), 'inner range rebuilt for every outer index; no index skipped',
+              'the index loops are not a full product (inner iterator shared across outer indices, or a loop is skipped)')
+    # one iteration, symbolically: which (zero, i == 0, j == 0) reach the yield, and what is yielded
+    sx, outs = n.iteration(inner, {ybb})
+    if not rep.check(bool(outs) and not sx.aborted, 'R3', 'filter-truth-table', where(b), 'one iteration is loop-free',
+                     'one iteration of the index nest is not loop-free', 'undecidable-shape'):
+        return
+    io, ii = 'item%d' % outer['header'], 'item%d' % inner['header']
+    rows, err = {}, None
     for z in (0, 1):
         for x0 in (0, 1):
             for y0 in (0, 1):
@@ -281,48 +254,98 @@ def truth_table(f, cb):
                     for c in o.pc:
                         if c[0] == 'assume':
                             continue
-                        v = _eval_bool(c[1], z, x0, y0) if c[0] == 'cond' else None
+                        v = _eval_bool(c[1], z, x0, y0, io, ii) if c[0] == 'cond' else None
                         if v is None:
-                            return None, 'unrecognised condition in filter closure: %r' % (c[1],)
+                            err = 'unrecognised condition on the way to the yield: %r' % (c[1],)
+                            break
                         if v != c[2]:
                             sat = False
                             break
+                    if err:
+                        break
                     if sat:
-                        r = o.ret
-                        rv = _eval_bool(r, z, x0, y0)
-                        if rv is None:
-                            return None, 'unrecognised result in filter closure: %r' % (r,)
-                        res.add(rv)
+                        res.add(isinstance(o.ret, tuple) and o.ret[0] == 'stopped' and o.ret[1] == ybb)
+                if err:
+                    break
                 if len(res) != 1:
-                    return None, 'filter closure is not a function of (zero, x==0, y==0)'
+                    err = 'whether an index pair is yielded is not a function of (zero, i==0, j==0)'
+                    break
                 rows[(z, x0, y0)] = res.pop()
-    return rows, None
+            if err:
+                break
+        if err:
+            break
+    if err:
+        rep.fail('R3', 'filter-truth-table', where(b), err, 'undecidable-shape')
+    else:
+        want = {(z, x0, y0): bool(z or not (x0 and y0)) for z in (0, 1) for x0 in (0, 1) for y0 in (0, 1)}
+        diff = [k for k in sorted(want) if rows.get(k) != want[k]]
+        rep.check(not diff, 'R3', 'filter-truth-table', where(b),
+                  'keep(zero, i=0, j=0) == zero OR NOT(i=0 AND j=0) on all 8 rows',
+                  'the image filter differs from "drop only the (0,0) translate, and only when zero is false" '
+                  'on rows (zero, i==0, j==0) = %s' % diff)
+        rep.extra['filter_truth_table'] = {str(k): v for k, v in sorted(rows.items())}
+    # what is yielded: the value self.to_cartesian_translate(transform, i, j) has (compared as exact normal forms, so the
+    # call may be spelled through a helper or with hoisted sub-expressions)
+    ref_b = f.one(self_adt=CELL, name='to_cartesian_translate')
+    if not rep.check(ref_b is not None, 'R3', 'anchor:to_cartesian_translate', CELL, 'found', 'not found', 'anchor-lost'):
+        return
+    ok, why = True, ''
+    nyield = 0
+    nm = Norm()
+    for o in outs:
+        if isinstance(o.ret, tuple) and o.ret[0] == 'stopped' and o.ret[1] == ybb:
+            nyield += 1
+            v = n.arg_values(sx, o, ybb)[0]
+            got = nm.canon_value(v)
+            good = False
+            for a, c in ((io, ii), (ii, io)):
+                rx = SymEx(f)
+                routs = rx.run(ref_b, [SYM('self'), SYM('transform'), SYM(a), SYM(c)])
+                if len(routs) == 1 and not rx.aborted:
+                    if nm.canon_value(rx.deep(routs[0].st, routs[0].ret)) == got:
+                        good = True
+            if not good:
+                ok, why = False, 'a yielded item is %s' % (got[:300],)
+    rep.check(ok and nyield > 0, 'R3', 'each-index-mapped-by-translate', where(b),
+              'every yielded item equals self.to_cartesian_translate(transform, i, j) (exact normal forms)',
+              'periodic_images does not yield to_cartesian_translate(transform, i, j) for its index pair: %s' % why)
 
 
-def _eval_bool(v, z, x0, y0):
+def show_val(v, depth=0):
+    if not isinstance(v, tuple) or depth > 4:
+        return str(v)[:40]
+    if v[0] == 'sym':
+        return v[1]
+    if v[0] == 'num':
+        return str(v[1])
+    if v[0] == 'app':
+        return '%s(%s)' % (v[1], ', '.join(show_val(x, depth + 1) for x in v[2]))
+    if v[0] in ('bin', 'cmp'):
+        return '(%s %s %s)' % (show_val(v[2], depth + 1), v[1], show_val(v[3], depth + 1))
+    return str(v)[:80]
+
+
+def _eval_bool(v, z, x0, y0, io='item.0', ii='item.1'):
     k = v[0]
     if k == 'bool':
         return bool(v[1])
     if k == 'un' and v[1] == 'Not':
-        r = _eval_bool(v[2], z, x0, y0)
+        r = _eval_bool(v[2], z, x0, y0, io, ii)
         return None if r is None else (not r)
     if k == 'sym':
-        nm = v[1]
-        if nm.startswith('env') and 'item' not in nm:
+        if v[1] == 'zero':
             return bool(z)
         return None
     if k == 'cmp' and v[1] in ('Eq', 'Ne'):
         a, b = v[2], v[3]
         if b[0] == 'sym' and a[0] == 'num':
             a, b = b, a
-        if a[0] == 'sym' and b[0] == 'num' and b[1] == 0 and a[1].startswith('item'):
-            which = a[1].rsplit('.', 1)[-1]
-            val = {'0': x0, '1': y0}.get(which)
-            if val is None:
-                return None
+        if a[0] == 'sym' and b[0] == 'num' and b[1] == 0 and a[1] in (io, ii):
+            val = x0 if a[1] == io else y0
             return bool(val) if v[1] == 'Eq' else (not bool(val))
     if k == 'bin' and v[1] in ('BitAnd', 'BitOr'):
-        a, b = _eval_bool(v[2], z, x0, y0), _eval_bool(v[3], z, x0, y0)
+        a, b = _eval_bool(v[2], z, x0, y0, io, ii), _eval_bool(v[3], z, x0, y0, io, ii)
         if a is None or b is None:
             return None
         return (a and b) if v[1] == 'BitAnd' else (a or b)
